@@ -59,6 +59,11 @@ CHECKS = {
     technique="TLA+ reassembly machine on offsets (HttpReasm.tla) model-checked by TLC over all partitions x arrival orders x both directions (MC_C09); recorded per-segment outcomes of real connections (cuts, sequence origins incl. wrap, permutations) trace-validated by TLC (TV_C09)",
     text="TLC explores every ordered partition of both directions' streams under every arrival order and interleaving and checks never-before-complete, at-most-once, reported-when-complete and never-garbled; real request/response pairs are then cut at byte positions, given initial sequence numbers from small values to within one stream length of 2^32, delivered in order, swapped and in seeded permutations with both directions interleaved (and with holes), and each connection's per-segment outcome - reported or not, identical to the one-shot result or not, in the right direction - is validated by TLC against the machine; differences are accepted only on the input classes of the two recorded defects.",
     note="Trusted: TLC, HttpReasm.tla, the one-shot parse as reference (C05). No overlaps/retransmissions; HTTP/1.x messages."),
+ "C16": dict(
+    level="model_checking", design="§5 C16",
+    technique="TLA+ HPACK encoder (Hpack.tla, tables generated from RFC 7541, checked against RFC appendix C) and HTTP/2 framing (Http2.tla); TLC enumerates representation choices x framings x control-frame prefixes with the expected report; replayed into HttpProcessors::parse_request/parse_response",
+    text="The header list a block denotes is fixed by the encoder plan, so TLC can enumerate every representation per field (indexed, literal with/without/never indexing, name by index or literal, Huffman or plain, in-block dynamic references, table size updates incl. 0) and every framing (PADDED 0/1/7/255, PRIORITY, every single CONTINUATION cut and double cuts of the block, END_STREAM or not, control frames before and after, responses) and assign method, path, status, header list, cookies, referer, user agent, language and the p0f-style observation; the real parser must report exactly that for each rendered byte string.",
+    note="Trusted: TLC, Hpack/Http2/Http1 specs, generated RFC tables, harness projection. Values printable ASCII; lists up to 12 fields."),
 }
 
 NOT_YET = {}
